@@ -727,7 +727,8 @@ fn g_float(rng: &mut Rng) -> String {
     format!("{}{}.{}", if rng.chance(1, 4) { "-" } else { "" }, ip, fp)
 }
 fn g_scalar(rng: &mut Rng) -> Lit {
-    match rng.below(10) {
+    match rng.below(11) {
+        10 => g_concat(rng),
         0 | 1 => Lit::Int(g_int(rng)),
         2 => Lit::Float(g_float(rng)),
         3 | 4 | 5 => g_str(rng),
@@ -752,10 +753,45 @@ fn g_arith(rng: &mut Rng, parens: bool) -> String {
         format!("{} {} {}", path2(rng), op, operand(rng))
     }
 }
+/// one operand of a string concatenation: `L` literal written with quote `q` (None: any quote that fits the body), `F` dotted field,
+/// `I` identifier, `N` number
+fn concat_operand(rng: &mut Rng, kind: char, q: Option<char>) -> String {
+    match kind {
+        'L' => {
+            // a body that does not contain the quote it is written with (there is no escape syntax); one in five is empty
+            let b = loop {
+                let b = if rng.chance(1, 5) { "" } else if rng.chance(1, 3) { pk(rng, &STR_META) } else { pk(rng, &STR_SAFE) };
+                if q.map_or(true, |q| !b.contains(q)) {
+                    break b;
+                }
+            };
+            let q = q.unwrap_or_else(|| if b.contains('"') { '\'' } else if b.contains('\'') || rng.chance(1, 2) { '"' } else { '\'' });
+            format!("{}{}{}", q, b, q)
+        }
+        'F' => path(rng),
+        'I' => pk(rng, &IDENTS).to_string(),
+        _ => if rng.chance(1, 3) { g_float(rng).trim_start_matches('-').to_string() } else { rng.below(1000).to_string() },
+    }
+}
+/// the shapes of a string concatenation (documented: `Msg.text = "Hello, " + User.name + "!";`): which operands are literals.
+/// The first five start AND end with a literal: only the inner quote tells them from one literal.
+const CONCAT_SHAPES: [&str; 14] = ["LFL", "LL", "LLL", "LIL", "LNL", "LFLFL", "FL", "LF", "FLF", "IL", "LI", "NL", "LFLF", "FLFL"];
+/// `operand + operand + …` as one expression text. `q`: the quote character of every literal (None = mixed). The separator has blanks
+/// unless a dotted field makes the text an expression anyway (`is_expression`: an operator and (a dot or a blank) OUTSIDE literals).
+fn concat_text(rng: &mut Rng, shape: &str, q: Option<char>) -> String {
+    let sep = if shape.contains('F') { *rng.pick(&[" + ", " + ", " + ", "+", "  +  ", " +", "+ "]) } else { *rng.pick(&[" + ", " + ", "  +  "]) };
+    shape.chars().map(|k| concat_operand(rng, k, q)).collect::<Vec<_>>().join(sep)
+}
+fn g_concat(rng: &mut Rng) -> Lit {
+    let shape = *rng.pick(&CONCAT_SHAPES);
+    let q = match rng.below(4) { 0 => Some('\''), 1 => None, _ => Some('"') };
+    Lit::Arith(concat_text(rng, shape, q))
+}
 fn g_value(rng: &mut Rng) -> Lit {
     match rng.below(12) {
-        0 => Lit::Arr((0..rng.below(4)).map(|_| match rng.below(3) { 0 => Lit::Int(g_int(rng)), 1 => g_str(rng), _ => Lit::Float(g_float(rng)) }).collect()),
+        0 => Lit::Arr((0..rng.below(4)).map(|_| match rng.below(7) { 0 | 1 => Lit::Int(g_int(rng)), 2 | 3 => g_str(rng), 4 => g_concat(rng), _ => Lit::Float(g_float(rng)) }).collect()),
         1 => Lit::Arith(g_arith(rng, false)),
+        2 => g_concat(rng),
         _ => g_scalar(rng),
     }
 }
@@ -768,7 +804,7 @@ fn g_atom(rng: &mut Rng) -> Atom {
             let o = OPS[rng.below(11) as usize].0;
             let f = if rng.chance(1, 5) { pk(rng, &IDENTS).to_string() } else { path(rng) };
             let v = if o == "in" {
-                Lit::Arr((0..rng.range(1, 3)).map(|_| if rng.chance(1, 2) { g_str(rng) } else { Lit::Int(g_int(rng)) }).collect())
+                Lit::Arr((0..rng.range(1, 3)).map(|_| if rng.chance(1, 8) { g_concat(rng) } else if rng.chance(1, 2) { g_str(rng) } else { Lit::Int(g_int(rng)) }).collect())
             } else if is_word_op(o) {
                 g_str(rng)
             } else {
@@ -777,7 +813,8 @@ fn g_atom(rng: &mut Rng) -> Atom {
             Atom::Cmp(f, o, v)
         }
         9 | 10 => {
-            let v = match rng.below(4) {
+            let v = match rng.below(5) {
+                4 => g_concat(rng),
                 0 => Lit::Path(path2(rng)),
                 1 => Lit::Float(g_float(rng)),
                 2 => g_str(rng),
@@ -830,7 +867,7 @@ fn g_stmt(rng: &mut Rng) -> Stmt {
             Stmt::Call(pk(rng, &ACTFUNCS).to_string(), args)
         }
         10 => Stmt::Retract(pk(rng, &OBJS).to_string()),
-        11 | 12 => Stmt::Log(if rng.chance(1, 5) { Lit::Int(rng.below(100) as i64) } else { g_str(rng) }),
+        11 | 12 => Stmt::Log(if rng.chance(1, 5) { Lit::Int(rng.below(100) as i64) } else if rng.chance(1, 5) { g_concat(rng) } else { g_str(rng) }),
         13 => Stmt::Activate(simple_name(rng)),
         14 => Stmt::Schedule(rng.below(100000), simple_name(rng)),
         _ => Stmt::Complete(simple_name(rng)),
@@ -950,6 +987,57 @@ fn gen(rng: &mut Rng, n: usize, tier: &str) -> Vec<String> {
         r.de = if mask & 32 != 0 { Some(pk(rng, &DATES).to_string()) } else { None };
         r.dx = if mask & 64 != 0 { Some(pk(rng, &DATES).to_string()) } else { None };
         out.push(assemble("G", &[r], rng, Lay(1)));
+    }
+    // string concatenations (`"Hello, " + User.name + "!"`): every shape in every position where a value is read, both quote kinds
+    for (pi, pos) in ["cmp", "cmp-paren", "callcond", "set", "append", "callarg", "log", "arr-set", "arr-in", "arith-lhs", "mcount"].iter().enumerate() {
+        for (si, shape) in CONCAT_SHAPES.iter().enumerate() {
+            // shapes that start and end with a literal: both quote kinds, every position; the others: three per position
+            let ends_lit = shape.starts_with('L') && shape.ends_with('L');
+            let quotes: Vec<Option<char>> = if ends_lit {
+                vec![Some('"'), Some('\'')]
+            } else if rng.chance(1, 3) {
+                vec![*rng.pick(&[Some('"'), Some('\''), None])]
+            } else {
+                vec![]
+            };
+            for q in quotes {
+                let v = Lit::Arith(concat_text(rng, shape, q));
+                let mut r = base_rule(rng);
+                r.name = format!("C{}_{}", pi, si);
+                let other = |rng: &mut Rng| if rng.chance(1, 2) { g_str(rng) } else { Lit::Int(g_int(rng)) };
+                match *pos {
+                    "cmp" | "cmp-paren" => r.cond = Cond::Atom(Atom::Cmp(path(rng), g_sym_op(rng), v)),
+                    "callcond" => r.cond = Cond::Atom(Atom::Call(pk(rng, &FUNCS).to_string(), vec![path(rng)], g_sym_op(rng), v)),
+                    "set" => r.stmts = vec![Stmt::Set(path(rng), v)],
+                    "append" => r.stmts = vec![Stmt::Append(path(rng), v)],
+                    "callarg" => {
+                        let mut args: Vec<Lit> = (0..rng.below(3)).map(|_| other(rng)).collect();
+                        let at = rng.below(args.len() as u64 + 1) as usize;
+                        args.insert(at, v);
+                        r.stmts = vec![Stmt::Call(pk(rng, &ACTFUNCS).to_string(), args)]
+                    }
+                    "log" => r.stmts = vec![Stmt::Log(v)],
+                    "arr-set" | "arr-in" => {
+                        let mut xs: Vec<Lit> = (0..rng.below(3)).map(|_| other(rng)).collect();
+                        let at = rng.below(xs.len() as u64 + 1) as usize;
+                        xs.insert(at, v);
+                        if *pos == "arr-set" {
+                            r.stmts = vec![Stmt::Set(path(rng), Lit::Arr(xs))]
+                        } else {
+                            r.cond = Cond::Atom(Atom::Cmp(path(rng), "in", Lit::Arr(xs)))
+                        }
+                    }
+                    "arith-lhs" => r.cond = Cond::Atom(Atom::Arith(g_arith(rng, false), g_sym_op(rng), v)),
+                    _ => r.cond = Cond::Atom(Atom::MCount(path2(rng), g_sym_op(rng), v)),
+                }
+                if *pos == "cmp-paren" {
+                    // inside a compound condition with redundant parentheses and mixed white space
+                    r.cond = Cond::And(Box::new(r.cond.clone()), Box::new(Cond::Not(Box::new(Cond::Atom(g_atom(rng))))));
+                }
+                let lay = Lay(if *pos == "cmp-paren" { 1 + rng.below(2) as u8 } else { rng.below(2) as u8 });
+                out.push(assemble("G", &[r], rng, lay));
+            }
+        }
     }
     let maxdepth = if tier == "thorough" { 6 } else { 5 };
     // the findings stream goes last (check.py reports the first dozen failure groups only)
@@ -1104,6 +1192,29 @@ fn corpus() -> Vec<String> {
         one("G", "rule \"A\" { when X == 1 // don't\n then /* it's */ Y = \"a}b\"; }", base(&|r| {
             r.cond = x1.clone();
             r.stmts = vec![Stmt::Set("Y".into(), Lit::Str('"', "a}b".into()))];
+        })),
+        // string concatenation (corpus/C04/strconcat.case): a value that STARTS and ENDS with a literal of the same quote kind is an
+        // expression, not one literal — condition value, assigned value, call argument, Log argument, array element
+        one("G", "rule \"A\" { when X.t == 'Dr. ' + U.d + ' (hon.)' then Msg.text = \"Hello, \" + User.name + \"!\"; }", base(&|r| {
+            r.cond = Cond::Atom(Atom::Cmp("X.t".into(), "==", Lit::Arith("'Dr. ' + U.d + ' (hon.)'".into())));
+            r.stmts = vec![Stmt::Set("Msg.text".into(), Lit::Arith("\"Hello, \" + User.name + \"!\"".into()))];
+        })),
+        one("G", "rule \"A\" { when X == 1 then sendEmail(\"Hello, \" + User.name + \"!\", 1); Log(\"a\" + \"b\"); Y = [\"\" + U.n + \"\", 2]; Z += 'x'+U.n+'y'; }", base(&|r| {
+            r.cond = x1.clone();
+            r.stmts = vec![
+                Stmt::Call("sendEmail".into(), vec![Lit::Arith("\"Hello, \" + User.name + \"!\"".into()), Lit::Int(1)]),
+                Stmt::Log(Lit::Arith("\"a\" + \"b\"".into())),
+                Stmt::Set("Y".into(), Lit::Arr(vec![Lit::Arith("\"\" + U.n + \"\"".into()), Lit::Int(2)])),
+                Stmt::Append("Z".into(), Lit::Arith("'x'+U.n+'y'".into())),
+            ];
+        })),
+        // … and the neighbours: literal on one side only, mixed quote kinds, a placeholder look-alike inside a concatenated literal
+        one("G", "rule \"A\" { when X.t in [\"a\" + U.d + 'b', 'c'] then Y = U.first + \" \" + U.last; Z = \"\u{1}0\u{2}\" + U.n + \"}\"; }", base(&|r| {
+            r.cond = Cond::Atom(Atom::Cmp("X.t".into(), "in", Lit::Arr(vec![Lit::Arith("\"a\" + U.d + 'b'".into()), Lit::Str('\'', "c".into())])));
+            r.stmts = vec![
+                Stmt::Set("Y".into(), Lit::Arith("U.first + \" \" + U.last".into())),
+                Stmt::Set("Z".into(), Lit::Arith("\"\u{1}0\u{2}\" + U.n + \"}\"".into())),
+            ];
         })),
         // empty file, comment-only file
         "G - 0".to_string(),
